@@ -120,11 +120,14 @@ func (t SSE) Do(w http.ResponseWriter, r *http.Request, exec graphql.GraphExecut
 	} else {
 		responses, ctx := exec.DispatchOperation(ctx, rc)
 		for {
-			response := responses(ctx)
+			response, panicked := nextResponse(ctx, rc, responses)
 			if response == nil {
 				break
 			}
 			c.write(func() { writeJsonWithSSE(w, response) })
+			if panicked {
+				break
+			}
 
 			c.resetTicker(t.KeepAlivePingInterval)
 		}
